@@ -3,7 +3,7 @@
 From Coq Require Import ZArith List Bool Lia.
 Import ListNotations.
 Require Import Verif.lib.PyLite Verif.gen.BananaGen Verif.gen.RecvGen Verif.lib.Token Verif.lib.Recv Verif.lib.RecvProofs
-               Verif.lib.Unsl Verif.lib.UnslProofs Verif.lib.UnslOnce Verif.lib.StdUnsl.
+               Verif.lib.Unsl Verif.lib.UnslProofs Verif.lib.UnslOnce Verif.lib.UnslAbandon Verif.lib.StdUnsl.
 Local Open Scope Z_scope.
 
 (* ---- the hypotheses of the generic theorems ---- *)
@@ -77,40 +77,50 @@ Proof.
   - destruct (negb (known_tok ty)); [discriminate|]. destruct (t_strict t); discriminate.
 Qed.
 
-Lemma staste_bound : forall c ty size B, usized ty = true -> ole (sbound c) B -> staste c ty size = OOk tt -> size <= B.
+Lemma cbound_taster t B : ole (cbound t) B -> ole (taster_bound t) B /\ tclosed t = true.
+Proof. unfold cbound. destruct (tclosed t); [auto|contradiction]. Qed.
+
+Lemma staste_bound_in : forall c inner ty size B, usized ty = true -> ole (sbound_in inner c) B -> staste c ty size = OOk tt -> size <= B.
 Proof.
-  fix IH 1. intros c ty size B S O H. destruct c as [t|t|t mx|t v|t ic mx|t cs|t k v mk|t ic mx|alts]; cbn [staste sbound] in *.
+  fix IH 1. intros c inner ty size B S O H. destruct c as [t|t|t mx|t v|t ic mx|t cs|t k v mk|t ic mx|alts]; cbn [staste sbound_in] in *.
   - contradiction.
-  - apply (base_taste_bound _ _ _ _ S O H).
-  - apply ole_omax in O as [O _]. apply (base_taste_bound _ _ _ _ S O H).
-  - apply (base_taste_bound _ _ _ _ S O H).
-  - apply ole_omax in O as [O _]. apply (base_taste_bound _ _ _ _ S O H).
-  - apply ole_omax in O as [O _]. apply (base_taste_bound _ _ _ _ S O H).
-  - apply ole_omax in O as [O _]. apply (base_taste_bound _ _ _ _ S O H).
-  - apply ole_omax in O as [O _]. apply (base_taste_bound _ _ _ _ S O H).
-  - destruct (negb (known_tok ty)); [discriminate|].
+  - apply cbound_taster in O as [O _]. apply (base_taste_bound _ _ _ _ S O H).
+  - apply ole_omax in O as [O _]. apply cbound_taster in O as [O _]. apply (base_taste_bound _ _ _ _ S O H).
+  - apply cbound_taster in O as [O _]. apply (base_taste_bound _ _ _ _ S O H).
+  - apply ole_omax in O as [O _]. apply cbound_taster in O as [O _]. apply (base_taste_bound _ _ _ _ S O H).
+  - apply ole_omax in O as [O _]. apply cbound_taster in O as [O _]. apply (base_taste_bound _ _ _ _ S O H).
+  - apply ole_omax in O as [O _]. apply cbound_taster in O as [O _]. apply (base_taste_bound _ _ _ _ S O H).
+  - apply ole_omax in O as [O _]. apply cbound_taster in O as [O _]. apply (base_taste_bound _ _ _ _ S O H).
+  - destruct inner; [contradiction|].
+    destruct (negb (known_tok ty)); [discriminate|].
     destruct (existsb (fun a => oc_ok (staste a ty size)) alts) eqn:E; [|discriminate]. clear H.
     induction alts as [|a alts IHa]; [discriminate|]. cbn [existsb] in E. cbn [map omax_list fold_right] in O.
     apply ole_omax in O as [Oa Or]. apply orb_true_iff in E as [E|E].
-    + destruct (staste a ty size) as [[]| | |] eqn:Ea; try discriminate. apply (IH a ty size B S Oa Ea).
+    + destruct (staste a ty size) as [[]| | |] eqn:Ea; try discriminate. apply (IH a true ty size B S Oa Ea).
     + apply (IHa Or E).
 Qed.
 
+Lemma staste_bound : forall c ty size B, usized ty = true -> ole (sbound c) B -> staste c ty size = OOk tt -> size <= B.
+Proof. intros c. apply (staste_bound_in c false). Qed.
+
 Lemma otaste_bound c ty size B : usized ty = true -> ole (obound c) B -> otaste c ty size = OOk tt -> size <= B.
 Proof. destruct c; cbn; [apply staste_bound|contradiction]. Qed.
+
+Lemma oitaste_bound c ty size B : usized ty = true -> ole (oibound c) B -> otaste c ty size = OOk tt -> size <= B.
+Proof. destruct c; cbn; [apply (staste_bound_in s true)|contradiction]. Qed.
 
 (* the constraint a container applies to its next token is bounded by the container's own bound *)
 Definition is_cont (h : sch) : bool :=
   match h with HList _ _ | HTuple _ | HDict _ _ | HSet _ _ | HFset _ _ => true | _ => false end.
 
-Lemma slot_bound f c B : is_cont (s_ch f) = true -> slot f = Some c -> ole (fbound (s_ch f)) B -> ole (obound c) B.
+Lemma slot_bound f c B : is_cont (s_ch f) = true -> slot f = Some c -> ole (fbound (s_ch f)) B -> ole (oibound c) B.
 Proof.
   unfold slot. destruct (s_ch f) as [rc|ic mx|ocs|okv mk|ic mx|ic mx|mx|v| |]; cbn [fbound is_cont]; intros C H O; try discriminate.
   - destruct (full _ _); [discriminate|]. inversion H; subst. exact O.
   - destruct ocs as [cs|]; [|contradiction].
-    destruct (nth_error cs (List.length (s_items f))) as [c0|] eqn:N; [|discriminate]. inversion H; subst. cbn [obound].
-    apply (ole_omax_list (map sbound cs)); [apply in_map; apply (nth_error_In _ _ N)|exact O].
-  - destruct (full _ _); [discriminate|]. destruct okv as [[k v]|]; [|contradiction]. inversion H; subst. cbn [obound].
+    destruct (nth_error cs (List.length (s_items f))) as [c0|] eqn:N; [|discriminate]. inversion H; subst. cbn [oibound].
+    apply (ole_omax_list (map ibound cs)); [apply in_map; apply (nth_error_In _ _ N)|exact O].
+  - destruct (full _ _); [discriminate|]. destruct okv as [[k v]|]; [|contradiction]. inversion H; subst. cbn [oibound].
     apply ole_omax in O as [Ok Ov]. destruct (Z.even _); assumption.
   - destruct (full _ _); [discriminate|]. inversion H; subst. exact O.
   - destruct (full _ _); [discriminate|]. inversion H; subst. exact O.
@@ -122,7 +132,7 @@ Lemma std_P_check B f ty size : SP B f -> usized ty = true -> std_check f ty siz
 Proof.
   unfold SP, std_check. intros O S H.
   destruct (s_ch f) as [rc|ic mx|cs|kv mk|ic mx|ic mx|mx|v| |] eqn:K;
-    try (destruct (slot f) as [c|] eqn:SL; [|discriminate]; rewrite <- K in O; apply (otaste_bound c ty size B S (slot_bound f c B ltac:(rewrite K; reflexivity) SL O) H)).
+    try (destruct (slot f) as [c|] eqn:SL; [|discriminate]; rewrite <- K in O; apply (oitaste_bound c ty size B S (slot_bound f c B ltac:(rewrite K; reflexivity) SL O) H)).
   - apply (otaste_bound rc ty size B S O H).
   - destruct (usized_cases ty S) as [->|[->| ->]]; try (cbn in H; discriminate).
     change (negb ((tok_STRING =? tok_STRING) || (tok_STRING =? tok_VOCAB))) with false in H. cbv iota in H.
@@ -130,7 +140,7 @@ Proof.
     change (tok_STRING =? tok_STRING) with true in H. cbn [andb] in H. destruct (Z.gtb_spec size (6 * m)); [discriminate|]. lia.
   - destruct (usized_cases ty S) as [->|[->| ->]]; cbn in H; discriminate.
   - discriminate.
-  - discriminate.
+  - destruct (usized_cases ty S) as [->|[->| ->]]; cbn in H; discriminate.
 Qed.
 
 Lemma std_P_child B : forall f v es f', SP B f -> std_child f v = (es, OOk f') -> SP B f'.
@@ -139,15 +149,18 @@ Proof. intros f v es f' O H. unfold SP. rewrite (std_child_kind _ _ _ _ H). exac
 Lemma std_P_start B : forall ch n ch', SP B ch -> std_start ch n = OOk ch' -> SP B ch'.
 Proof. intros ch n ch' O H. inversion H; subst. exact O. Qed.
 
-Lemma mkchild_bound B k c ch : 0 <= B -> ole (obound c) B -> mkchild k c = OOk (Some ch) -> SP B ch.
+Lemma mkchild_bound B k c ch inner : 0 <= B -> ole (match c with None => None | Some c0 => sbound_in inner c0 end) B ->
+  mkchild k c = OOk (Some ch) -> SP B ch.
 Proof.
   intros HB O H. unfold mkchild in H. cbv zeta in H. unfold SP.
   destruct (k =? oc_none); [inversion H; subst; exact HB|].
-  destruct ((k =? oc_decimal) || (k =? oc_reference) || (k =? oc_setvocab) || (k =? oc_addvocab)); [inversion H; subst; exact HB|].
-  destruct c as [c|]; [|contradiction]. cbn [obound] in O.
-  destruct c as [t|t|t mx|t v|t ic mx|t cs|t kk v mk|t ic mx|alts]; cbn [sbound] in O; try contradiction;
+  destruct (k =? oc_reference); [inversion H; subst; exact HB|].
+  destruct c as [c|]; [|contradiction].
+  destruct (k =? oc_decimal); [destruct c; discriminate|].
+  destruct ((k =? oc_setvocab) || (k =? oc_addvocab)); [destruct c; discriminate|].
+  destruct c as [t|t|t mx|t v|t ic mx|t cs|t kk v mk|t ic mx|alts]; cbn [sbound_in] in O; try contradiction;
     repeat match type of H with (if ?b then _ else _) = _ => destruct b end; try discriminate;
-    inversion H; subst; cbn [mkf s_ch fbound obound]; try (apply ole_omax in O as [_ O]; exact O).
+    inversion H; subst; cbn [mkf s_ch fbound oibound ibound]; try (apply ole_omax in O as [_ O]; exact O).
   exact HB.
 Qed.
 
@@ -159,9 +172,74 @@ Proof.
     try (destruct (slot top) as [c|] eqn:SL; [|discriminate]; rewrite <- K in PT; pose proof (slot_bound top c B ltac:(rewrite K; reflexivity) SL PT) as OC;
          destruct (negb _); [discriminate|]; destruct (otcode name) as [k|]; [|discriminate];
          destruct (k =? oc_copyable); [discriminate|]; destruct ((k =? oc_setvocab) || (k =? oc_addvocab)); [discriminate|];
-         apply (mkchild_bound B k c ch HB OC H)).
+         apply (mkchild_bound B k c ch true HB OC H)).
   destruct (negb _); [discriminate|]. destruct (otcode name) as [k|]; [|discriminate].
-  destruct (k =? oc_copyable); [discriminate|]. apply (mkchild_bound B k rc ch HB PT H).
+  destruct (k =? oc_copyable); [discriminate|]. apply (mkchild_bound B k rc ch false HB PT H).
+Qed.
+
+(* ---- under a finite bound, OPEN never reaches an unslicer outside the model ---- *)
+Lemma tclosed_rejects t k : tclosed t = true -> (k = oc_copyable \/ k = oc_decimal \/ k = oc_setvocab \/ k = oc_addvocab) ->
+  match t_opens t with None => true | Some l => (k =? oc_reference) || zmem k l end = false.
+Proof.
+  unfold tclosed. destruct (t_opens t) as [l|]; [|discriminate]. intros H K. apply negb_true_iff in H.
+  apply orb_false_iff in H as [H H4]. apply orb_false_iff in H as [H H3]. apply orb_false_iff in H as [H1 H2].
+  destruct K as [->|[->|[->| ->]]]; cbn [Z.eqb oc_copyable oc_decimal oc_setvocab oc_addvocab oc_reference Pos.eqb orb]; assumption.
+Qed.
+
+Lemma bounded_rejects_unmodelled c inner B k : ole (sbound_in inner c) B -> (inner = true \/ tinfo_of c <> None) ->
+  (k = oc_copyable \/ k = oc_decimal \/ k = oc_setvocab \/ k = oc_addvocab) -> scheck_opentype c (Some k) = false.
+Proof.
+  intros O IN K. unfold scheck_opentype.
+  destruct c as [t|t|t mx|t v|t ic mx|t cs|t kk v mk|t ic mx|alts]; cbn [sbound_in tinfo_of] in *; try contradiction;
+    try (apply cbound_taster in O as [_ O]; apply (tclosed_rejects _ _ O K));
+    try (apply ole_omax in O as [O _]; apply cbound_taster in O as [_ O]; apply (tclosed_rejects _ _ O K)).
+  destruct IN as [->|IN]; [contradiction|exfalso; apply IN; reflexivity].
+Qed.
+
+Lemma mkchild_abstains k c : mkchild k c = OExc 98 ->
+  (k = oc_decimal /\ match c with None => True | Some (SAny _) => True | _ => False end) \/
+  ((k = oc_setvocab \/ k = oc_addvocab) /\ match c with None => True | Some (SAny _) => True | Some (SPrim _) => True | _ => False end).
+Proof.
+  unfold mkchild. cbv zeta. intros H.
+  destruct (k =? oc_none); [discriminate|]. destruct (k =? oc_reference); [discriminate|].
+  destruct (Z.eqb_spec k oc_decimal) as [->|].
+  { left. split; [reflexivity|]. destruct c as [[]|]; try discriminate; exact I. }
+  destruct ((k =? oc_setvocab) || (k =? oc_addvocab)) eqn:EV.
+  { right. split; [apply orb_true_iff in EV as [EV|EV]; apply Z.eqb_eq in EV; auto|]. destruct c as [[]|]; try discriminate; exact I. }
+  exfalso. destruct c as [[]|]; cbn in H;
+    repeat match type of H with (if ?b then _ else _) = _ => destruct b end; discriminate.
+Qed.
+
+(* THE GUARD OF THE BOUND IS STATIC: when every unslicer on the stack carries a finite bound (the invariant SP of the buffer-bound
+   theorem), an OPEN sequence never makes the model abstain -- it is either refused by the opentype check, or refused by the
+   registry, or kills the connection in setConstraint, or creates a modelled unslicer.  In particular OPEN copyable / decimal /
+   set-vocab / add-vocab are refused wherever the bound is finite. *)
+Theorem std_bounded_open_never_abstains B : forall st name, st <> [] -> Forall (SP B) st -> std_do_open st [name] <> OExc 98.
+Proof.
+  intros st name NE F H. unfold std_do_open in H. destruct st as [|top rest]; [apply NE; reflexivity|].
+  inversion F as [|? ? PT _]; subst. unfold SP in PT.
+  destruct (s_ch top) as [rc|ic mx|cs|kv mk|ic mx|ic mx|mx|v| |] eqn:K; try discriminate;
+    try (destruct (slot top) as [c|] eqn:SL; [|discriminate]; rewrite <- K in PT; pose proof (slot_bound top c B ltac:(rewrite K; reflexivity) SL PT) as OC;
+         destruct c as [c0|]; [|contradiction]; cbn [oibound ibound] in OC;
+         destruct (scheck_opentype c0 (otcode name)) eqn:SC; cbn [negb] in H; [|discriminate];
+         destruct (otcode name) as [k|]; [|discriminate];
+         destruct (Z.eqb_spec k oc_copyable) as [->|];
+         [rewrite (bounded_rejects_unmodelled c0 true B oc_copyable OC (or_introl eq_refl) (or_introl eq_refl)) in SC; discriminate|];
+         destruct ((k =? oc_setvocab) || (k =? oc_addvocab)); [discriminate|];
+         apply mkchild_abstains in H as [(-> & Hc)|([-> | ->] & Hc)];
+         [destruct c0; try contradiction; cbn in OC; contradiction
+         |rewrite (bounded_rejects_unmodelled c0 true B oc_setvocab OC (or_introl eq_refl)) in SC; [discriminate|auto]
+         |rewrite (bounded_rejects_unmodelled c0 true B oc_addvocab OC (or_introl eq_refl)) in SC; [discriminate|auto 6]]).
+  (* the root *)
+  cbn [fbound] in PT. destruct rc as [c0|]; [|contradiction]. cbn [obound] in PT. unfold sbound in PT.
+  destruct (scheck_opentype c0 (otcode name)) eqn:SC; cbn [negb] in H; [|discriminate].
+  destruct (otcode name) as [k|]; [|discriminate]. destruct (k =? oc_copyable); [discriminate|].
+  apply mkchild_abstains in H as [(-> & Hc)|(KV & Hc)].
+  - destruct c0; try contradiction; try (cbn in PT; contradiction).
+  - destruct c0 as [t|t| | | | | | |]; try contradiction; try (cbn in PT; contradiction).
+    assert (KK : k = oc_copyable \/ k = oc_decimal \/ k = oc_setvocab \/ k = oc_addvocab) by (destruct KV; auto).
+    assert (TI : false = true \/ tinfo_of (SPrim t) <> None) by (right; cbn; discriminate).
+    rewrite (bounded_rejects_unmodelled (SPrim t) false B k PT TI KK) in SC. discriminate.
 Qed.
 
 Lemma std_P_opener mi lg : forall st ty size ot, usized ty = true -> std_opener mi lg st ty size ot = OOk tt -> size <= Z.max mi lg.
@@ -193,6 +271,59 @@ Proof.
       rewrite HS. cbn. unfold B0. lia.
     + unfold init, mk, lenZ, LIM. cbn [r_buf List.length Z.of_nat]. unfold SIZE_LIMIT. lia.
   - unfold LIM in G. unfold B, B0 in G. lia.
+Qed.
+
+(* every unslicer that is ever on the stack carries the bound (the invariant behind std_buffer_bounded) ... *)
+Theorem std_reachable_stack_bounded mi lg c Bs cs : sbound c = Some Bs ->
+  Forall (fun f => SP (Z.max 0 Bs) (uf_st sfr f)) (u_stack sfr (r_ctx (fst (sfeed_all mi lg (init (sctx0 (Some c))) cs)))).
+Proof.
+  intros HS.
+  set (B0 := Z.max 0 Bs). set (B := Z.max B0 (Z.max mi lg)).
+  assert (HB0 : 0 <= B0) by (unfold B0; lia).
+  assert (W : forall f ty size, SP B0 f -> usized ty = true -> std_check f ty size = OOk tt -> size <= B).
+  { intros f ty size Pf S H. pose proof (std_P_check B0 f ty size Pf S H). unfold B. lia. }
+  assert (WO : forall st ty size ot, usized ty = true -> std_opener mi lg st ty size ot = OOk tt -> size <= B).
+  { intros st ty size ot S H. pose proof (std_P_opener mi lg st ty size ot S H). unfold B. lia. }
+  pose proof (unsl_buffer_bounded_inv sfr std_check (std_opener mi lg) std_do_open std_start std_child std_close std_finish std_report
+                (SP B0) B (std_P_open B0 HB0) (std_P_start B0) (std_P_child B0) W WO cs (init (sctx0 (Some c)))) as G.
+  unfold sfeed_all. destruct G as (G & _); [|exact G].
+  split.
+  - unfold J, SJ, init, mk, sctx0, uctx0. cbn [r_ctx u_stack]. constructor; [|constructor]. cbn [uf_st]. unfold SP, sroot, mkf. cbn [s_ch fbound obound].
+    rewrite HS. cbn. unfold B0. lia.
+  - unfold init, mk, lenZ, LIM. cbn [r_buf List.length Z.of_nat]. unfold SIZE_LIMIT. lia.
+Qed.
+
+(* ... so under a finite bound no OPEN sequence, in any reachable state, makes the model abstain *)
+Theorem std_bounded_schema_open_never_abstains mi lg c Bs cs name : sbound c = Some Bs ->
+  let st := map (uf_st sfr) (u_stack sfr (r_ctx (fst (sfeed_all mi lg (init (sctx0 (Some c))) cs)))) in
+  st <> [] -> std_do_open st [name] <> OExc 98.
+Proof.
+  intros HS st NE. apply (std_bounded_open_never_abstains (Z.max 0 Bs)); [exact NE|].
+  unfold st. apply Forall_map. apply (std_reachable_stack_bounded mi lg c Bs cs HS).
+Qed.
+
+(* ---- REFUTED: the bound read off the taster tables alone.  c = ListOf(ChoiceOf(ByteStringConstraint(3), UnicodeConstraint(3)))
+   with the taster tables / opentypes of the live objects: the taster-only bound is 18 bytes, yet after OPEN list the list's slot is
+   the PolyConstraint, whose opentype check admits OPEN copyable: the tokens that follow go to a RemoteCopyUnslicer (outside the
+   model: it abstains), whose checkToken bounds no attribute name.  Replayed on the real code: harness/c11.py
+   choice_admits_copyable, corpus/C11/choice_admits_copyable.json -- 4 000 005 bytes held.  sbound answers None for it. ---- *)
+Definition rf_bytes3 : sctr := SPrim {| t_taster := [(130, Some 3); (135, None)]; t_strict := false; t_opens := Some [] |}.
+Definition rf_text3 : sctr := SText {| t_taster := [(136, None)]; t_strict := true; t_opens := Some [oc_unicode] |} (Some 3).
+Definition rf_choice : sctr := SChoice [rf_bytes3; rf_text3].
+Definition rf_list : sctr := SList {| t_taster := [(136, None)]; t_strict := false; t_opens := Some [oc_list] |} rf_choice None.
+
+Theorem std_taster_only_bound_refuted :
+  exists c st, sbound_tasters c = Some 18 /\
+    (* the stack after OPEN(0) "list" under root constraint c ... *)
+    sapply_all 13 30 (sctx0 (Some c)) [(tok_OPEN, 0, []); (tok_STRING, 4, [108; 105; 115; 116])] =
+      UOk sfr {| u_discard := 0; u_inOpen := false; u_opentype := [[108; 105; 115; 116]]; u_stack := st;
+                 u_objctr := 1; u_inbObj := 0; u_inbOpen := 0; u_vocab := [] |} [] /\
+    (* ... tastes the next OPEN, admits the opentype copyable, and leaves the model *)
+    std_check (uf_st sfr (hd {| uf_open := None; uf_st := sroot None |} st)) tok_OPEN 1 = OOk tt /\
+    std_do_open (map (uf_st sfr) st) [str_copyable] = OExc 98 /\
+    sbound c = None.
+Proof.
+  exists rf_list. eexists. split; [reflexivity|]. split; [vm_compute; reflexivity|]. split; [reflexivity|]. split; reflexivity.
 Qed.
 
 (* ---- the generic theorems, instantiated ---- *)
@@ -282,3 +413,49 @@ Proof.
   apply (unsl_exactly_one sfr std_check (std_opener mi lg) std_do_open std_start std_child std_close std_finish std_report std_is_root
            std_R1 std_R2 std_R3 std_R4 std_R5 std_R6 std_child_keeps_absorbing std_closing_violation_propagates).
 Qed.
+
+(* a violated top-level object leaves the root unslicer exactly as it was *)
+Theorem std_violated_object_keeps_root mi lg c h b body : hd_abort_in_index = true -> uat_top sfr c -> std_RI c -> inside 1 body ->
+  hr_count sfr (sapply_all mi lg c ((tok_OPEN, h, b) :: body)) (fun c' es => nviolation es = 1 -> u_stack sfr c' = u_stack sfr c).
+Proof.
+  apply (unsl_violated_object_keeps_root sfr std_check (std_opener mi lg) std_do_open std_start std_child std_close std_finish std_report std_is_root
+           std_R1 std_R2 std_R3 std_R4 std_R5 std_R6 std_child_keeps_absorbing std_closing_violation_propagates).
+Qed.
+
+(* the same, read three ways: the model ABSTAINS (it reached an unslicer or a value it does not model: nothing is claimed about the
+   real receiver), the connection is ABANDONED, or exactly one root event *)
+Theorem std_exactly_one3 mi lg c h b body : hd_abort_in_index = true -> uat_top sfr c -> std_RI c -> inside 1 body ->
+  match uview sfr (sapply_all mi lg c ((tok_OPEN, h, b) :: body)) with
+  | U3Abstains _ => True
+  | U3Abandoned _ es => In UErrorSent es /\ In ULose es
+  | U3Ok _ c' es => nroot es = 1 /\ uat_top sfr c' /\ std_RI c' /\ (nviolation es = 1 -> u_stack sfr c' = u_stack sfr c)
+  end.
+Proof.
+  intros FA T R IN. pose proof (std_exactly_one mi lg c h b body FA T R IN) as H.
+  pose proof (std_violated_object_keeps_root mi lg c h b body FA T R IN) as K.
+  pose proof (unsl_abandoned_is_real sfr std_check (std_opener mi lg) std_do_open std_start std_child std_close std_finish std_report
+                c ((tok_OPEN, h, b) :: body)) as A. fold (sapply_all mi lg) in A.
+  destruct (sapply_all mi lg c ((tok_OPEN, h, b) :: body)) as [c' es|es]; cbn [uview hr_count] in *; [tauto|].
+  destruct (abstained es); [exact I|exact A].
+Qed.
+
+Theorem std_resync3 mi lg c ts : uat_top sfr c -> swfc c -> udelta_sum ts = 0 ->
+  match uview sfr (sapply_all mi lg c ts) with
+  | U3Abstains _ => True
+  | U3Abandoned _ es => In UErrorSent es /\ In ULose es
+  | U3Ok _ c' es => uat_top sfr c' /\ swfc c' /\ u_vocab sfr c' = u_vocab sfr c /\ u_objctr sfr c' = u_objctr sfr c + ucount_opens ts
+  end.
+Proof.
+  intros T W D.
+  pose proof (unsl_abandoned_is_real sfr std_check (std_opener mi lg) std_do_open std_start std_child std_close std_finish std_report c ts) as A.
+  fold (sapply_all mi lg) in A.
+  destruct (sapply_all mi lg c ts) as [c' es|es] eqn:E; cbn [uview] in *; [|destruct (abstained es); [exact I|exact A]].
+  apply (std_resync mi lg c ts c' es T W D E).
+Qed.
+
+(* a top-level set-vocab / add-vocab sequence (legitimate in the real protocol: no root event, then VOCAB tokens decode with the new
+   table) is NOT claimed to abandon the connection: the model abstains on it *)
+Example std_vocab_sequence_abstains :
+  uview sfr (sapply_all 13 30 (sctx0 None) [(tok_OPEN, 0, []); (tok_STRING, 9, [115; 101; 116; 45; 118; 111; 99; 97; 98]); (tok_CLOSE, 0, [])])
+  = U3Abstains sfr.
+Proof. vm_compute. reflexivity. Qed.
